@@ -14,7 +14,8 @@ from ..irsym import Inconclusive, R, inv_axioms
 from ..report import Check
 from . import rates_props as rp
 
-TD = "/repo/tests/data"
+from ..paths import REPO
+TD = REPO + "/tests/data"
 
 
 def corpus(thorough):
@@ -23,7 +24,10 @@ def corpus(thorough):
         lines = [r for r in rp.build_lines(fmt, False, 0) if not (fmt == "leeds" and r["code"] in (5, 15, 19))]  # no reaction type at all: cannot be written
         # a few per type code (first three coefficient classes + one literal-shape row)
         seen, keep = {}, []
-        for r in lines:
+        # generic rows (no vanishing coefficient) first: two laws that differ only in how they use alpha/beta/gamma
+        # coincide on rows with a zero coefficient
+        zero = lambda r: sum(1 for f in ("a", "b", "c") if float(r[f]) == 0.0)
+        for r in sorted(lines, key=zero):
             n = seen.get(r["code"], 0)
             if n < (6 if thorough else 3):
                 keep.append(r)
@@ -41,7 +45,7 @@ def corpus(thorough):
         out.append((f"enc-{fmt}", {"files": [{"name": f"net.{fmt}", "content": rp.file_text(fmt, keep)}], "network": {"filelist": f"net.{fmt}", "fileformats": fmt}}, keep, fmt))
     for nm, f, fmt in (("minimal.kida", "minimal.kida", "kida"), ("minimal.umist", "minimal.umist", "umist"), ("minimal.leeds", "minimal.leeds", "leeds"), ("minimal.krome", "minimal.krome", "krome"), ("duplicate.kida", "duplicate.kida", "kida")):
         out.append((f"B-{nm}", {"network": {"filelist": f"{TD}/{f}", "fileformats": fmt}}, None, fmt))
-    out.append(("B-primordial.krome", {"network": {"filelist": "/repo/naunet/examples/primordial/primordial.krome", "fileformats": "krome", "elements": ["e", "H", "D", "He"], "pseudo_elements": ["Photon"]}}, None, "krome"))
+    out.append(("B-primordial.krome", {"network": {"filelist": REPO + "/naunet/examples/primordial/primordial.krome", "fileformats": "krome", "elements": ["e", "H", "D", "He"], "pseudo_elements": ["Photon"]}}, None, "krome"))
     api = [{"reactants": ["H", "H"], "products": ["H2"], "alpha": 1.5e-10, "beta": -0.5, "gamma": 3.25, "temp_min": 10.0, "temp_max": 300.0, "reaction_type": 100, "idxfromfile": 7},
            {"reactants": ["H2", "CR"], "products": ["H", "H"], "alpha": 2.0e-17, "reaction_type": 101, "idxfromfile": 8},
            {"reactants": ["CO", "PHOTON"], "products": ["C", "O"], "alpha": 2.0e-10, "gamma": 2.5, "reaction_type": 102, "idxfromfile": 9},
